@@ -115,9 +115,15 @@ Init == /\ vo = [v \in Vals |-> IF Seeded THEN SeedVal ELSE NoVal]
 
 Rec(name, v, a, d, id, on) == [op |-> name, v |-> v, a |-> a, d |-> d, id |-> id, on |-> on]
 \* generated behaviours start with a creation (everything else is a no-op on the empty set)
+\* Reads are not neutral in this code base (lazy caches): in alphabet "blind" every generated operation carries a flag
+\* b: b = 1 tells the driver NOT to project the state after the operation (the next projection is the first read).
+\* The flag does not exist in the model's state; the prelude of the alphabet is executed by the model itself.
+DynPrelude == IF Alpha = "blind" THEN <<Rec("Create", 1, 0, 15, 0, FALSE), Rec("Create", 2, 0, 25, 0, FALSE), Rec("Reload", 0, 0, 0, 0, FALSE)>> ELSE <<>>
+InPrelude == Len(hist) < Len(DynPrelude)
+Flags == IF Alpha = "blind" /\ GenMode = "leaf" /\ ~InPrelude THEN {0, 1} ELSE {0}
 Tick(rec) == /\ Len(hist) < MaxOps /\ ~failed
              /\ (GenMode = "leaf" /\ Len(hist) = 0) => rec.op = "Create"
-             /\ hist' = Append(hist, rec)
+             /\ \E x \in Flags : hist' = Append(hist, rec @@ [b |-> x])
 
 \* ---- StateDB.UpdateValidator(new, old): one journal entry, statistics moved unless StakeEqual
 \* `more` is a sequence of further <<old, new>> pairs applied in the same call pattern
@@ -444,6 +450,12 @@ NextDeleg3 ==    \* one delegator delegating to every validator: full withdrawal
    \/ \E v \in Vals : Undelegate(1, v, 7) \/ Delegate(1, v, 7)
    \/ SnapRev \/ Root \/ Reload \/ CopyStep
 
+NextBlind ==     \* freshly loaded state, copies, root computations and reloads with and without a read in between
+   \/ CopyStep \/ Reload \/ Root \/ Deposit(1, 7) \/ Status(1, TRUE)
+PreludeStep ==
+   LET p == DynPrelude[Len(hist) + 1] IN
+   CASE p.op = "Create" -> Create(p.v, p.d) [] p.op = "Reload" -> Reload [] OTHER -> FALSE
+
 NextRich ==
    \/ \E v \in Vals :
         \/ \E t \in {7, 15, 25} : Create(v, t)
@@ -457,7 +469,8 @@ NextRich ==
    \/ SnapRev \/ Finalise \/ Root \/ Commit \/ Reload \/ CopyStep \/ ForUpdate
 
 Next == /\ Bounded
-        /\ CASE Alpha = "m" -> NextM [] Alpha = "malias" -> NextMAlias [] Alpha = "g1" -> NextG1 [] Alpha = "g1b" -> NextG1b
+        /\ IF InPrelude THEN PreludeStep ELSE
+           CASE Alpha = "blind" -> NextBlind [] Alpha = "m" -> NextM [] Alpha = "malias" -> NextMAlias [] Alpha = "g1" -> NextG1 [] Alpha = "g1b" -> NextG1b
              [] Alpha = "remove" -> NextRemove [] Alpha = "deleg3" -> NextDeleg3 [] OTHER -> NextRich
 Spec == Init /\ [][Next]_vars
 
